@@ -539,6 +539,7 @@ def case_covmat(ctx, name, mods):
     paths, ex = core.run_paths(go, pre)
     ctx.explored(ex, len(paths))
     rp = lambda m: harness.pristine_call(replay_spec, name, None)
+    ctx.fallback = rp
     for pi, p in enumerate(paths):
         if p.exc is not None:
             continue
